@@ -319,9 +319,10 @@ def run_enhsp_task(task):
             return None
         content = SymStr([])
         expected = []
-        for l in lines:
-            content = content + l + "\n"
-            expected.append(l.lower() + "\n")
+        for li, l in enumerate(lines):
+            last = li == len(lines) - 1
+            content = content + l + ("" if last and task.get("no_final_newline") else "\n")
+            expected.append(l.lower())
         files = {"/sym/plan.txt": content}
         en.open = text.make_open(files)
         try:
@@ -344,15 +345,17 @@ def run_enhsp_task(task):
         content, expected, got = pr.value
         res["obligations"] += 1
         ok = len(got) == len(expected)
-        post = z3.And([g.eqz(e) for g, e in zip(got, expected)] + [z3.BoolVal(ok)])
+        got = [expand_tags(g) if isinstance(g, str) else g for g in got]
+        # a step is the line's text, lower-cased; the line terminator may or may not be kept
+        post = z3.And([z3.Or(g.eqz(e), g.eqz(e + "\n")) for g, e in zip(got, expected)] + [z3.BoolVal(ok)])
         m = ctx.valid(post)
         if m is not None and res["outcome"] != "violation":
             textv = content.concrete(m)
             # replay on the real parser with a real file
             p = lib.write_tmp(textv, ".txt")
             real = en.ENHSPParser.parse_plan_content(p)
-            exp = [l.lower() + "\n" for l in textv.split("\n")[:-1]]
-            if real != exp:
+            exp = [l.lower() for l in (textv[:-1] if textv.endswith("\n") else textv).split("\n")] if textv else []
+            if [r[:-1] if r.endswith("\n") else r for r in real] != exp:
                 res["outcome"] = "violation"
                 res["cex"] = {"what": "ENHSP plan lines differ", "log": textv, "entry": "enhsp", "library": real, "reference": exp}
             else:
@@ -450,6 +453,8 @@ def tasks_for(tier, seed):
     for ll in ([[1], [2], [3], [1, 1], [2, 1], [4]] if tier == "quick" else [[1], [2], [3], [1, 1], [2, 1], [4], [3, 2], [1, 1, 1], [5]]):
         for entry in ("content", "parse_plan"):
             tasks.append({"kind": "enhsp", "line_lens": ll, "entry": entry})
+            if len(ll) <= 2:
+                tasks.append({"kind": "enhsp", "line_lens": ll, "entry": entry, "no_final_newline": True})
     return tasks
 
 
